@@ -279,7 +279,7 @@ def relaxations(doc):
         for r in s.get("required", []):
             if r in s.get("properties", {}):
                 out.append((path + ["required", r], "required"))
-        if "multipleOf" not in s:
+        if not has(doc, "multipleOf"):      # 'a number without multipleOf', also through allOf / $ref: conservative
             for b in ("minimum", "maximum", "exclusiveMinimum", "exclusiveMaximum"):
                 if b in s:
                     out.append((path + [b], "bound"))
@@ -330,6 +330,10 @@ def oracle_c12(doc):
                 nf = normalize(copy.deepcopy(doc))
                 if any(alt.get("type") == [] for alt in conjuncts(nf)):
                     why = ":empty-type-intersection"
+                elif kind == "type":
+                    defaults = ["string", 42, None, True, False, {}, []]
+                    if not any(v2.is_valid(x) and not v.is_valid(x) for x in defaults):
+                        why = ":default-samples-of-the-freed-types-violate-another-constraint"
                 elif not any(e.is_valid for e, _ in pairs):
                     why = ":no-valid-sample"
             except Exception:  # noqa
